@@ -26,6 +26,7 @@ pub fn def() -> CheckDef {
         assumptions: &["imgck (sim/src/imgck.rs) is an independent MS-CFB reader written from the specification; R5 for the root entry demands capacity (chain >= size), not equality", "sibling-order rule judged only for names from agreed case-mapping classes"],
         cpu_limit_s: 120,
         fault_kinds: "none (fault-free disk)",
+        count_subruns: false,
     }
 }
 
